@@ -16,6 +16,7 @@ and analyse the returned Body, whose CFG is the caller's MIR with
 The transformation only ever duplicates or splices blocks of the MIR extracted from the current tree; it never invents
 statements other than parameter/return copies."""
 import copy
+import os
 from .mirlib import Body, call_info
 
 TARGET_KEYS = ('t', 'u', 'else', 'imag')
@@ -55,6 +56,9 @@ def _renum_targets(t, boff):
 
 def default_policy(facts, caller, callee, keep):
     raw = callee.raw
+    if callee.kind == 'Closure':
+        # only reached through a combinator model (rules/combinators.py): a closure literal called exactly here
+        return not (keep is not None and keep(callee.path)) and len(callee.blocks) <= 80
     if callee.kind not in ('Fn', 'AssocFn'):
         return False
     if raw.get('pub') and raw.get('reachable'):
@@ -297,14 +301,18 @@ def thread_variants(raw, max_rounds=40, max_chain=8):
 
 # ------------------------------------------------------------------ driver
 
-def inlined(facts, body, keep=None, depth=3, policy=default_policy, thread=True):
+def inlined(facts, body, keep=None, depth=3, policy=default_policy, thread=True, combinators=True):
     """Body equal to `body` with small crate-local helpers inlined (see module doc). `keep(path)` -> True keeps a
     callee as a call. The result is cached on the facts object."""
     cache = facts.__dict__.setdefault('_inline_cache', {})
-    ck = (body.path, id(keep) if keep is not None else None, depth, thread)
+    ck = (body.path, id(keep) if keep is not None else None, depth, thread, combinators, id(policy))
     if ck in cache:
         return cache[ck]
     raw = copy.deepcopy(body.raw)
+    expanded = []
+    if combinators and not os.environ.get('VERIF_NO_COMBINATORS'):
+        from . import combinators as comb
+        expanded = comb.expand(raw, facts, keep)
     level = {i: 0 for i in range(len(raw['blocks']))}
     stack_of = {i: (body.path,) for i in range(len(raw['blocks']))}
     names = []
@@ -317,8 +325,12 @@ def inlined(facts, body, keep=None, depth=3, policy=default_policy, thread=True)
             callee = None
             if info is not None and info.get('crate') == facts.crate or (info is not None and info.get('res_crate') == facts.crate):
                 callee = facts.bodies.get(info.get('res') or info.get('fn')) or facts.bodies.get(info.get('fn'))
+            direct = bool(info is not None and info.get('direct_closure'))
+            if callee is not None and callee.kind == 'Closure' and not direct:
+                callee = None
             if callee is not None and callee.path not in stack_of[i] and policy(facts, body, callee, keep) and \
-                    len(callee.raw.get('inputs', [])) == len(t['args']) == callee.arg_count:
+                    len(t['args']) == callee.arg_count and \
+                    (direct or len(callee.raw.get('inputs', [])) == callee.arg_count):
                 start = len(raw['blocks'])
                 splice(raw, i, callee.raw, callee.path)
                 names.append(callee.path)
@@ -326,11 +338,12 @@ def inlined(facts, body, keep=None, depth=3, policy=default_policy, thread=True)
                     level[j] = level[i] + 1
                     stack_of[j] = stack_of[i] + (callee.path,)
         i += 1
-    threaded = thread_variants(raw) if (thread and names) else False
-    if not names and not threaded:
+    threaded = thread_variants(raw) if (thread and (names or expanded)) else False
+    if not names and not threaded and not expanded:
         cache[ck] = body
         return body
     nb = Body(raw, facts)
     nb.inlined_callees = names
+    nb.expanded_combinators = expanded
     cache[ck] = nb
     return nb
